@@ -65,7 +65,7 @@ CHECKS = {
     ),
     "C26": dict(
         level="proof",
-        text="Deductive for the aggregation: the body of the loop of Spec.calculate_component_costs (slice) is symbolically executed; proved for every parents list and every value: total_area == area x parents_fanout(parents) and total_leak_power == leak_power x parents_fanout(parents), where parents_fanout is the recursively defined product of the fan-outs of the Spatialable non-Compute parents (loop invariant over the parents list), times the component's own fan-out -- the last factor is known finding F4 (own fan-out not counted; restricted to the two obligations it names, witness replayed each run). Genuine defect F5 (a sibling Compute's fan-out multiplied in) was repaired in /repo. BOUNDED, not proved: WHICH nodes are in `parents` (ArchNode.iterate_hierarchically, a recursive generator over a shared mutated list) -- random architecture trees (depth <= 4, <= ~12 leaves, nested Hierarchical / Fork) through the real Spec, compared with the definition of 'above on its path'.",
+        text="Deductive for the aggregation: the body of the loop of Spec.calculate_component_costs (slice) is symbolically executed; proved for every parents list and every value: total_area == area x parents_fanout(parents) and total_leak_power == leak_power x parents_fanout(parents), where parents_fanout is the recursively defined product of the fan-outs of the Spatialable non-Compute parents (loop invariant over the parents list), times the component's own fan-out -- the last factor is known finding F4 (own fan-out not counted; restricted to the two obligations it names, witness replayed each run). Genuine defect F5 (a sibling Compute's fan-out multiplied in) was repaired in /repo (fix: commit 40bacd1; pinned suite 917/917). BOUNDED, not proved: WHICH nodes are in `parents` (ArchNode.iterate_hierarchically, a recursive generator over a shared mutated list) -- random architecture trees (depth <= 4, <= ~12 leaves, nested Hierarchical / Fork) through the real Spec, compared with the definition of 'above on its path'.",
         note=_TB + "calculate_area / calculate_leak_power / find / get_fanout assumed; real arithmetic; node names unique; first calculation on the spec (re-calculation is C27); iterate_hierarchically and the architecture totals (sums over components) are bounded only.",
         technique="contract-based deductive verification of the aggregation loop (slice, loop invariant over a recursively defined product); bounded run-time check over architecture trees for the parents relation",
         design_ref="DESIGN 3 C26",
